@@ -39,7 +39,8 @@ type Case struct {
 	Probes         []Req           `json:"probes"`
 	New            []route.Binding `json:"new"`
 	NestAdditional bool            `json:"nest_additional"`
-	Via            int             `json:"via"` // 0 annotation, 1 service config, 2 both
+	NestParent     int             `json:"nest_parent"` // which of the remaining additional bindings receives the nested one (0 = the first; valid siblings may follow it)
+	Via            int             `json:"via"`         // 0 annotation, 1 service config, 2 both
 	Kind           string          `json:"kind"`
 	// NewPaths[i]: further paths instantiated from New[i] (wildcards often filled with a literal
 	// that a base rule spells at the same position), besides the fixed instantiation.
@@ -51,7 +52,8 @@ func (c Case) newRule() *annotations.HttpRule {
 	if c.NestAdditional && len(r.AdditionalBindings) >= 2 {
 		last := r.AdditionalBindings[len(r.AdditionalBindings)-1]
 		r.AdditionalBindings = r.AdditionalBindings[:len(r.AdditionalBindings)-1]
-		r.AdditionalBindings[0].AdditionalBindings = append(r.AdditionalBindings[0].AdditionalBindings, last)
+		p := c.NestParent % len(r.AdditionalBindings)
+		r.AdditionalBindings[p].AdditionalBindings = append(r.AdditionalBindings[p].AdditionalBindings, last)
 	}
 	return r
 }
@@ -477,10 +479,11 @@ func genCase(t *rapid.T) Case {
 		c.New[pick].Body = rapid.SampledFrom([]string{"", "*", "sub", "sub.inner", "nope", "sub.nope", "name", "tags", "*", "subs", "subs.value", "subs.value.inner", "labels.value", "req_only", "rsp_only", "sub.name", "sub.inner.id"}).Draw(t, "body")
 		c.New[pick].Resp = rapid.SampledFrom([]string{"", "sub", "sub.inner", "nope", "sub.nope", "name", "", "subs.value", "labels", "rsp_only", "rsp_only.inner", "req_only", "req_only.inner", "sub.name", "sub.inner.id"}).Draw(t, "resp")
 	case "nested":
-		for len(c.New) < 3 {
+		for n := rapid.IntRange(3, 5).Draw(t, "nestN"); len(c.New) < n; {
 			c.New = append(c.New, valid())
 		}
 		c.NestAdditional = true
+		c.NestParent = rapid.IntRange(0, len(c.New)-3).Draw(t, "nestParent")
 	case "collision":
 		if own := c.Base.Owned(nil); len(own) > 0 {
 			ow := rapid.SampledFrom(own).Draw(t, "victim")
